@@ -4,6 +4,7 @@ import torch
 import torch.nn.functional as F
 import numpy as np
 from pytorch_wavelets.utils import symm_pad_1d as symm_pad
+from pytorch_wavelets._verif import point as _vp
 
 
 def as_column_vector(v):
@@ -72,6 +73,7 @@ def colfilter(X, h, mode='symmetric'):
         return torch.zeros(1,1,1,1, device=X.device)
     b, ch, row, col = X.shape
     m = h.shape[2] // 2
+    _vp('colfilter', rows=row, cols=col, taps=h.shape[2], mode=mode)
     if mode == 'symmetric':
         xe = symm_pad(row, m)
         X = F.conv2d(X[:,:,xe], h.repeat(ch,1,1,1), groups=ch)
@@ -85,6 +87,7 @@ def rowfilter(X, h, mode='symmetric'):
         return torch.zeros(1,1,1,1, device=X.device)
     b, ch, row, col = X.shape
     m = h.shape[2] // 2
+    _vp('rowfilter', rows=row, cols=col, taps=h.shape[2], mode=mode)
     h = h.transpose(2,3).contiguous()
     if mode == 'symmetric':
         xe = symm_pad(col, m)
@@ -99,6 +102,7 @@ def coldfilt(X, ha, hb, highpass=False, mode='symmetric'):
         return torch.zeros(1,1,1,1, device=X.device)
     batch, ch, r, c = X.shape
     r2 = r // 2
+    _vp('coldfilt', rows=r, cols=c, taps=ha.shape[2], highpass=highpass)
     if r % 4 != 0:
         raise ValueError('No. of rows in X must be a multiple of 4\n' +
                          'X was {}'.format(X.shape))
@@ -127,6 +131,7 @@ def rowdfilt(X, ha, hb, highpass=False, mode='symmetric'):
         return torch.zeros(1,1,1,1, device=X.device)
     batch, ch, r, c = X.shape
     c2 = c // 2
+    _vp('rowdfilt', rows=r, cols=c, taps=ha.shape[2], highpass=highpass)
     if c % 4 != 0:
         raise ValueError('No. of cols in X must be a multiple of 4\n' +
                          'X was {}'.format(X.shape))
@@ -161,6 +166,7 @@ def colifilt(X, ha, hb, highpass=False, mode='symmetric'):
     hbo = hb[:,:,1::2]
     hbe = hb[:,:,::2]
     batch, ch, r, c = X.shape
+    _vp('colifilt', rows=r, cols=c, taps=m, highpass=highpass)
     if r % 2 != 0:
         raise ValueError('No. of rows in X must be a multiple of 2.\n' +
                          'X was {}'.format(X.shape))
@@ -205,6 +211,7 @@ def rowifilt(X, ha, hb, highpass=False, mode='symmetric'):
     hbo = hb[:,:,1::2]
     hbe = hb[:,:,::2]
     batch, ch, r, c = X.shape
+    _vp('rowifilt', rows=r, cols=c, taps=m, highpass=highpass)
     if c % 2 != 0:
         raise ValueError('No. of cols in X must be a multiple of 2.\n' +
                          'X was {}'.format(X.shape))
